@@ -67,7 +67,7 @@ func runShutdown(t *testing.T, in *vio.Input, bi int, b vio.Behaviour, res *vio.
 		}
 		g := &gates{at: map[string]string{}, release: map[string]chan struct{}{"api": make(chan struct{}), "saver": make(chan struct{})}}
 		// only these saver points are scheduling gates; the file-operation points pass through
-		gated := map[string]bool{"cred.saver.wait": true, "cred.saver.cooldown": true, "cred.saver.beforeSave": true, "cred.op.afterUnlock": true}
+		gated := map[string]bool{"cred.saver.wait": true, "cred.saver.cooldown": true, "cred.saver.beforeSave": true, "cred.saver.afterSave": true, "cred.op.afterUnlock": true}
 		verifhook.Set(func(point string, args ...any) {
 			if g.free || !gated[point] {
 				return
@@ -107,6 +107,7 @@ func runShutdown(t *testing.T, in *vio.Input, bi int, b vio.Behaviour, res *vio.
 		acked := map[string]string{"A": credenv.None, "B": credenv.None}
 		var pending opRec
 		phase := "idle"
+		lost := false // the real saver left the model's behaviour; only the final property check remains
 		for si, st := range b.Steps {
 			var a action
 			if err := json.Unmarshal(st.A, &a); err != nil {
@@ -178,12 +179,23 @@ func runShutdown(t *testing.T, in *vio.Input, bi int, b vio.Behaviour, res *vio.
 					acked[pending.U] = credenv.None
 				}
 			case "SvTake":
-				if g.at["saver"] != "cred.saver.wait" || !step("saver") || g.at["saver"] != "cred.saver.cooldown" {
-					res.Break("behaviour %d step %d: saver did not take the job (at %q)", bi, si, g.at["saver"])
-					return
+				// a finished save leaves the saver parked after the unlock; let it loop back to the first select
+				if g.at["saver"] == "cred.saver.afterSave" {
+					step("saver")
 				}
-				phase = "cooling"
+				if g.at["saver"] != "cred.saver.wait" || !step("saver") || g.at["saver"] != "cred.saver.cooldown" {
+					// the saver did not pick up a queued job: not the model's behaviour; go on to shutdown and let the
+					// property decide (the acknowledged change must still be in the file when Stop returns)
+					res.DriftNote(vio.Finding{Key: "cred.saver/job-not-taken", Behaviour: bi, Step: si, Text: "a queued save job was not picked up by the saver (at " + g.at["saver"] + ")"})
+					phase = "job-not-taken"
+					lost = true
+				} else {
+					phase = "cooling"
+				}
 			case "SvCool":
+				if lost {
+					continue
+				}
 				if g.at["saver"] != "cred.saver.cooldown" {
 					res.Break("behaviour %d step %d: saver not at cool-down", bi, si)
 					return
@@ -197,8 +209,11 @@ func runShutdown(t *testing.T, in *vio.Input, bi int, b vio.Behaviour, res *vio.
 				}
 				phase = "presave"
 			case "SvBeginSave":
-				if g.at["saver"] != "cred.saver.beforeSave" || !step("saver") {
-					res.Break("behaviour %d step %d: saver not before the save", bi, si)
+				if lost {
+					continue
+				}
+				if g.at["saver"] != "cred.saver.beforeSave" || !step("saver") || g.at["saver"] != "cred.saver.afterSave" {
+					res.Break("behaviour %d step %d: saver did not run the save (at %q)", bi, si, g.at["saver"])
 					return
 				}
 				phase = "idle"
